@@ -44,7 +44,15 @@ func runSolver(ctx context.Context, s solverSpec, file string, timeoutS int) sol
 	cmd.Stderr = &out
 	cmd.Run()
 	text := out.String()
-	first := strings.TrimSpace(strings.SplitN(text, "\n", 2)[0])
+	first := ""
+	for _, ln := range strings.Split(text, "\n") {
+		ln = strings.TrimSpace(ln)
+		if ln == "" || strings.HasPrefix(ln, "WARNING") || strings.HasPrefix(ln, ";") {
+			continue
+		}
+		first = ln
+		break
+	}
 	res := "unknown"
 	switch first {
 	case "unsat", "sat":
